@@ -36,7 +36,7 @@ fn scenarios(thorough: bool) -> Vec<Scenario> {
   v
 }
 
-fn prepare(run: &Run) -> Option<(String, J)> {
+pub fn prepare(run: &Run) -> Option<(String, J)> {
   let root = crate::report::root();
   let out = Command::new("python3").arg(format!("{}/bin/instr_c20.py", root)).env("VERIF_ROOT", &root).output();
   let summary: J = match out {
